@@ -1,18 +1,25 @@
 """Calibration of spec/X86Sem.tla against the host processor (optional evidence for the trusted step function; it says
-nothing about miasmX).  X86Calib.tla (TLC) enumerates (register/immediate instance, generated state) pairs with Step's
-fault prediction; every non-faulting pair is executed natively in a 32-bit static ELF built by GNU as / ld (registers and
-flags loaded, the instruction executed, registers and flags stored); T_X86Calib.tla compares the processor's result with
-X86Sem!Step, skipping what the SDM leaves undefined.  A mismatch is a machinery failure (the spec is wrong), never a
-violation."""
+nothing about miasmX).  X86Calib.tla (TLC) enumerates (instance, generated state) pairs; every pair Step predicts as
+non-faulting is executed natively in a 32-bit static ELF built by GNU as / ld (memory window, registers and flags loaded,
+the instruction executed, registers, flags and the window stored); T_X86Calib.tla compares the processor's result with
+X86Sem!Step, skipping what the SDM leaves undefined.
+ mode "reg": register / immediate forms on the generated states as they are (esp not loaded, not compared);
+ mode "mem": memory operands, stack and string instructions: the address registers / esp / esi / edi of the generated state
+             are relocated into a private 256-byte window of an arena at a fixed address whose initial content is the
+             memory model of the specification (IR!InitByte + overrides).
+A mismatch is a machinery failure (the specification is wrong), never a violation."""
 import os, json, struct, subprocess, hashlib
 from . import core
 
 FLAGBIT = {'cf': 0, 'pf': 2, 'af': 4, 'zf': 6, 'sf': 7, 'df': 10, 'of': 11}
 REGS = ['eax', 'ecx', 'edx', 'ebx', 'esp', 'ebp', 'esi', 'edi']
+ARENA = 0x20000000
+WIN = 256
+M32 = 0xffffffff
 
 
-def gen_cases(nk, sd, chk=None):
-    cfg = 'CONSTANTS\n NK = %d\n SD = %d\nINIT Init\nNEXT Next\nCHECK_DEADLOCK FALSE\n' % (nk, sd)
+def gen_cases(mode, nk, sd, chk=None):
+    cfg = 'CONSTANTS\n NK = %d\n SD = %d\n MODE = "%s"\nINIT Init\nNEXT Next\nCHECK_DEADLOCK FALSE\n' % (nk, sd, mode)
     h = hashlib.sha1(cfg.encode())
     for f in ('BV.tla', 'IR.tla', 'X86Sem.tla', 'X86SpaceLib.tla', 'X86Calib.tla'):
         h.update(open(os.path.join(core.SPEC, f), 'rb').read())
@@ -29,7 +36,8 @@ def gen_cases(nk, sd, chk=None):
         for st in core.read_dump(dump):
             i = st['inst']
             i['txt'] = st['txt']
-            cases.append({'i': i, 'k': st['k'], 'reg': st['st']['reg'], 'fl': st['st']['fl'], 'flt': st['flt']})
+            cases.append({'i': i, 'k': st['k'], 'reg': [core.unlimbs(x) for x in st['st']['reg']], 'fl': st['st']['fl'],
+                          'seed': st['st']['seed'], 'over': [[core.unlimbs(a), b] for a, b in st['st']['over']], 'flt': st['flt']})
         os.unlink(dump)
         cases.sort(key=lambda c: (c['i']['txt'], c['k']))
         d = {'cases': cases, 'states': r.distinct, 'transitions': r.generated}
@@ -41,8 +49,62 @@ def gen_cases(nk, sd, chk=None):
     return d['cases']
 
 
-def run_native(cases):
-    """execute every case on the host; returns a list of (regs[8], eflags)"""
+def init_byte(seed, a):
+    """IR!InitByte(seed, 0, a)"""
+    return ((a & 255) * 7 + ((a >> 8) & 255) * 13 + ((a >> 16) & 255) * 29 + ((a >> 24) & 255) * 31 + seed * 3) % 256
+
+
+def s32(limbs):
+    v = core.unlimbs(limbs)
+    return v - (1 << 32) if v & 0x80000000 else v
+
+
+def relocate(c, n):
+    """place the memory the instance touches into window n of the arena: returns (regs, over) of the state to run"""
+    i, k = c['i'], c['k']
+    regs = list(c['reg'])
+    win = ARENA + WIN * n
+    T = win + 36
+    pool = [b for _, b in c['over'][:4]]            # the pool word the generator put at the (old) operand address
+    over = []
+    mems = [o for o in i['ops'] if o['k'] == 'mem']
+    regs[4] = win + 128
+    if mems:
+        o = mems[0]
+        b, ix, sc, disp = o['b'], o['i'], o['sc'], s32(o['d'])
+        if b >= 0 and ix < 0:
+            regs[b] = (T - disp) & M32
+        elif b >= 0 and ix >= 0 and b != ix:
+            regs[ix] &= 7
+            regs[b] = (T - disp - sc * regs[ix]) & M32
+        elif b < 0 and ix >= 0:
+            regs[ix] = ((T - disp) // sc) & M32
+        else:                                        # base = index
+            regs[b] = ((T - disp) // (sc + 1)) & M32
+        if i['mn'] in ('bt', 'bts', 'btr', 'btc') and i['ops'][1]['k'] == 'reg':
+            off = [5, 37, -1, -33, 100, -100, 31, -32][k % 8]
+            r = i['ops'][1]['n']
+            m = (1 << i['w']) - 1
+            regs[r] = (regs[r] & ~m & M32) | (off & m)
+        if k % 5 != 4 and pool:
+            over += [[T + j, v] for j, v in enumerate(pool)]
+    if i['mn'] in ('movs', 'cmps', 'scas', 'lods', 'stos'):
+        regs[6], regs[7] = win + 72, win + 168
+        w8 = i['w'] // 8
+        if k % 3 == 0:                               # equal comparands
+            over += [[regs[6] + j, (k * 37 + j) % 256] for j in range(w8)] + [[regs[7] + j, (k * 37 + j) % 256] for j in range(w8)]
+            if i['mn'] == 'scas':
+                m = (1 << i['w']) - 1
+                regs[0] = (regs[0] & ~m & M32) | sum(((k * 37 + j) % 256) << (8 * j) for j in range(w8))
+    if i['mn'] in ('pop', 'popad') and pool and k % 2 == 0:
+        over += [[regs[4] + j, v] for j, v in enumerate(pool)]
+    if i['mn'] == 'cmpxchg' and mems and k % 3 == 0:
+        over += [[T + j, (regs[0] >> (8 * j)) & 255] for j in range(i['w'] // 8)]
+    return regs, over
+
+
+def run_native(cases, mem):
+    """execute every case on the host; returns a list of (regs[8], eflags, window bytes)"""
     d = core.scratch()
     src, obj, exe = (os.path.join(d, 'calib' + e) for e in ('.s', '.o', ''))
     with open(src, 'w') as f:
@@ -51,55 +113,108 @@ def run_native(cases):
             ef = 0x202
             for k, b in FLAGBIT.items():
                 ef |= int(c['fl'][k]) << b
+            for a, v in c.get('run_over', []):
+                f.write('  mov byte ptr [0x%x], %d\n' % (a, v))
             f.write('  push 0x%x\n  popfd\n' % ef)
-            for r, v in zip(REGS, c['reg']):
+            for r, v in zip(REGS, c['run_reg']):
                 if r != 'esp':
-                    f.write('  mov %s, 0x%x\n' % (r, core.unlimbs(v)))
+                    f.write('  mov %s, 0x%x\n' % (r, v))
+            if mem:
+                f.write('  mov esp, 0x%x\n' % c['run_reg'][4])
             f.write('  %s\n' % c['i']['txt'])
             base = 36 * n
             for j, r in enumerate(REGS):
-                if r != 'esp':
-                    f.write('  mov dword ptr [res+%d], %s\n' % (base + 4 * j, r))
-            f.write('  pushfd\n  pop dword ptr [res+%d]\n' % (base + 32))
+                f.write('  mov dword ptr [res+%d], %s\n' % (base + 4 * j, r))
+            f.write('  lea esp, stk_top\n  pushfd\n  pop dword ptr [res+%d]\n' % (base + 32))
         total = 36 * len(cases)
-        f.write('  cld\n  lea esi, res\n  mov edi, %d\n' % total)
-        # write(1, esi, min(edi, 65536)) in a loop
-        f.write('1:\n  test edi, edi\n  jz 2f\n  mov edx, edi\n  cmp edx, 65536\n  jbe 3f\n  mov edx, 65536\n3:\n'
-                '  mov eax, 4\n  mov ebx, 1\n  mov ecx, esi\n  int 0x80\n  test eax, eax\n  jle 2f\n  add esi, eax\n  sub edi, eax\n  jmp 1b\n'
-                '2:\n  mov eax, 1\n  xor ebx, ebx\n  int 0x80\n')
+        f.write('  cld\n')
+        nwin = (max(c['n'] for c in cases) + 1) if mem else 0
+        for lab, size in (('res', total),) + ((('arena', WIN * nwin),) if mem else ()):
+            f.write('  lea esi, %s\n  mov edi, %d\n' % (lab, size))
+            f.write('1:\n  test edi, edi\n  jz 2f\n  mov edx, edi\n  cmp edx, 65536\n  jbe 3f\n  mov edx, 65536\n3:\n'
+                    '  mov eax, 4\n  mov ebx, 1\n  mov ecx, esi\n  int 0x80\n  test eax, eax\n  jle 9f\n  add esi, eax\n  sub edi, eax\n  jmp 1b\n2:\n')
+        f.write('  mov eax, 1\n  xor ebx, ebx\n  int 0x80\n9:\n  mov eax, 1\n  mov ebx, 3\n  int 0x80\n')
         f.write('.bss\n.align 16\nres: .space %d\n.space 4096\nstk_top: .space 64\n' % total)
-    for cmd in (['as', '--32', '-o', obj, src], ['ld', '-m', 'elf_i386', '-o', exe, obj]):
+        if mem:
+            f.write('.section .arena, "aw"\narena:\n')
+            seeds = {c['n']: c['seed'] for c in cases}
+            for n in range(nwin):
+                base = ARENA + WIN * n
+                row = [init_byte(seeds.get(n, 0), base + j) for j in range(WIN)]
+                f.write('.byte ' + ','.join(str(x) for x in row) + '\n')
+    cmds = [['as', '--32', '-o', obj, src], ['ld', '-m', 'elf_i386'] + (['--section-start=.arena=0x%x' % ARENA] if mem else []) + ['-o', exe, obj]]
+    for cmd in cmds:
         p = subprocess.run(cmd, stdout=subprocess.PIPE, stderr=subprocess.PIPE, universal_newlines=True)
         if p.returncode != 0:
             raise core.MachineryError('calibration build failed: %s\n%s' % (' '.join(cmd), p.stderr[:1500]))
-    p = subprocess.run([exe], stdout=subprocess.PIPE, stderr=subprocess.PIPE, timeout=120)
-    if p.returncode != 0 or len(p.stdout) != 36 * len(cases):
+    p = subprocess.run([exe], stdout=subprocess.PIPE, stderr=subprocess.PIPE, timeout=300)
+    want = 36 * len(cases) + WIN * nwin
+    if p.returncode != 0 or len(p.stdout) != want:
         raise core.MachineryError('calibration binary failed (rc=%s, %d of %d bytes): a state predicted non-faulting faulted?'
-                                  % (p.returncode, len(p.stdout), 36 * len(cases)))
+                                  % (p.returncode, len(p.stdout), want))
     out = []
     for n in range(len(cases)):
         w = struct.unpack('<9I', p.stdout[36 * n:36 * n + 36])
-        out.append((list(w[:8]), w[8]))
+        m = cases[n]['n'] if mem else 0
+        win = list(p.stdout[36 * len(cases) + WIN * m:36 * len(cases) + WIN * (m + 1)]) if mem else []
+        out.append((list(w[:8]), w[8], win))
     for f_ in (src, obj, exe):
         os.unlink(f_)
     return out
 
 
-def calibrate(chk, nk=8, sd=7):
-    cases = gen_cases(nk, sd, chk)
-    live = [c for c in cases if c['flt'] == '']
-    res = run_native(live)
+def _state(c):
+    return {'reg': [core.limbs(v, 32) for v in c['run_reg']], 'fl': c['fl'], 'seed': c['seed'],
+            'over': [[core.limbs(a, 32), b] for a, b in c['run_over']]}
+
+
+def calibrate(chk, nk=8, sd=7, mode='reg'):
+    mem = mode == 'mem'
+    cases = gen_cases(mode, nk, sd, chk)
+    if mem:
+        for n, c in enumerate(cases):
+            c['n'] = n
+            c['run_reg'], c['run_over'] = relocate(c, n)
+        # the relocated states are new: let the specification predict which of them fault
+        pre = [{'id': n, 'mode': 'predict', 'i': dict(c['i'], len=2), 's': _state(c), 'reg': [], 'fl': c['fl'], 'cmpesp': 1,
+                'base': core.limbs(ARENA + WIN * n, 32), 'win': []} for n, c in enumerate(cases)]
+        fv, st = core.judge('T_X86Calib', pre, timeout=1500, min_per_shard=50)
+        chk.add_tlc(st)
+        faulting = set(v['id'] for v in fv)
+        live = [c for n, c in enumerate(cases) if n not in faulting]
+    else:
+        for c in cases:
+            c['run_reg'], c['run_over'] = c['reg'], []
+        live = [c for c in cases if c['flt'] == '']
+    res = run_native(live, mem)
     recs = []
-    for n, (c, (regs, ef)) in enumerate(zip(live, res)):
-        recs.append({'id': n, 'i': dict(c['i'], len=2), 'sd': sd, 'k': c['k'], 'reg': [core.limbs(v, 32) for v in regs],
-                     'fl': {k: (ef >> b) & 1 for k, b in FLAGBIT.items()}})
-    verdicts, st = core.judge('T_X86Calib', recs, timeout=1500, min_per_shard=50)
+    for n, (c, (regs, ef, win)) in enumerate(zip(live, res)):
+        recs.append({'id': n, 'mode': 'compare', 'i': dict(c['i'], len=2), 's': _state(c), 'reg': [core.limbs(v, 32) for v in regs],
+                     'fl': {k: (ef >> b) & 1 for k, b in FLAGBIT.items()}, 'cmpesp': 1 if mem else 0,
+                     'base': core.limbs(ARENA + WIN * c.get('n', 0), 32), 'win': win})
+    # negative control: a copy of a record with one corrupted observation must be rejected (and only that one)
+    import copy
+    nc = copy.deepcopy(recs[len(recs) // 2])
+    nc['id'] = len(recs)
+    if mem and nc['win']:
+        nc['win'][200] ^= 1                           # a byte nothing writes
+    else:
+        nc['fl']['df'] ^= 1                           # no integer-core instance of these modes changes DF except cld/std
+        nc['reg'][5] = core.limbs(core.unlimbs(nc['reg'][5]) ^ 0x100, 32)
+    verdicts, st = core.judge('T_X86Calib', recs + [nc], timeout=1500, min_per_shard=50)
     chk.add_tlc(st)
+    caught = [v for v in verdicts if v['id'] == nc['id']]
+    verdicts = [v for v in verdicts if v['id'] != nc['id']]
+    chk.cov['negative_controls'].append({'name': 'calibration (%s): corrupted processor observation rejected' % mode, 'ok': len(caught) == 1})
+    if len(caught) != 1:
+        raise core.MachineryError('calibration negative control (%s) did not fire' % mode)
     out = {'cases': len(cases), 'executed_natively': len(live), 'predicted_faults_skipped': len(cases) - len(live),
            'instances': len(set(c['i']['txt'] for c in cases)), 'mismatches': len(verdicts)}
-    chk.cov['x86sem_calibration_against_host_cpu'] = out
+    chk.cov.setdefault('x86sem_calibration_against_host_cpu', {})[mode] = out
     if verdicts:
         v = verdicts[0]
-        raise core.MachineryError('X86Sem!Step disagrees with the host processor on %d of %d cases, e.g. %s: %s'
-                                  % (len(verdicts), len(live), live[v['id']]['i']['txt'], json.dumps(v['v'][0])[:1500]))
+        c = live[v['id']]
+        raise core.MachineryError('X86Sem!Step disagrees with the host processor on %d of %d cases (%s), e.g. %s regs=%s flags=%s over=%s: %s'
+                                  % (len(verdicts), len(live), sorted(set(live[x['id']]['i']['txt'] for x in verdicts))[:30], c['i']['txt'],
+                                     ['%08x' % x for x in c['run_reg']], c['fl'], c['run_over'], json.dumps(v['v'][0])[:1500]))
     return out
